@@ -604,58 +604,83 @@ func extraC15(c *Ctx) {
 		return SliceHas(v, func(t *Term) bool { return t.Op == "param" && t.Name == "data" })
 	}
 	n := 0
-	for _, ci := range AllCalls(fn) {
-		cn := CalleeName(ci.Common())
-		if strings.HasSuffix(cn, "Unstructured.SetLabels") {
-			n++
-			v := ci.Common().Args[1]
-			ok := fromData(v) && !fromLive(v, "GetLabels")
-			c.Ob("R15.3b", "compareAndUpdateObject#labels", ci.Pos(), ok, "labels written = labels returned by the script", ifs(!ok, "the labels written depend on the live object's labels (or not on the script result): labels of an earlier step survive into later steps"))
+	// v, an operand of the instruction pr.in, seen from compareAndUpdateObject: itself when the
+	// instruction is its own; for an instruction of a same-package helper, the arguments passed
+	// for the helper parameters v is computed from
+	seenFrom := func(v ssa.Value, pr instrAt) []ssa.Value {
+		if pr.in == pr.site {
+			return []ssa.Value{v}
 		}
+		call, ok := pr.site.(ssa.CallInstruction)
+		if !ok {
+			return nil
+		}
+		h := call.Common().StaticCallee()
+		var out []ssa.Value
+		sl := BackwardSlice(v)
+		for i, hp := range h.Params {
+			if sl[hp] && i < len(call.Common().Args) {
+				out = append(out, call.Common().Args[i])
+			}
+		}
+		return out
 	}
-	for _, b := range fn.Blocks {
-		for _, in := range b.Instrs {
-			mu, ok := in.(*ssa.MapUpdate)
-			if !ok {
-				continue
-			}
-			if k, isC := mu.Key.(*ssa.Const); !isC || k.Value == nil || k.Value.Kind() != constant.String || constant.StringVal(k.Value) != "spec" {
-				continue
-			}
-			n++
-			live := false
-			for x := range BackwardSlice(mu.Value) {
-				if lk, ok := x.(*ssa.Lookup); ok {
-					if k, isC := lk.Index.(*ssa.Const); isC && k.Value != nil && k.Value.Kind() == constant.String && constant.StringVal(k.Value) == "spec" {
-						live = true
-					}
-				}
-			}
-			ok2 := fromData(mu.Value) && !live
-			c.Ob("R15.3b", "compareAndUpdateObject#spec", mu.Pos(), ok2, "spec written = spec returned by the script", ifs(!ok2, "the spec written depends on the live object's spec"))
-		}
-	}
-	// the same write through the unstructured helpers: SetNestedMap / SetNestedField(obj, value, "spec")
-	for _, ci := range AllCalls(fn) {
-		cn := CalleeName(ci.Common())
-		if !(strings.HasSuffix(cn, "unstructured.SetNestedMap") || strings.HasSuffix(cn, "unstructured.SetNestedField")) || len(ci.Common().Args) < 3 {
-			continue
-		}
-		if !SliceHasDeep(ci.Common().Args[2], func(t *Term) bool { return t.Op == "const" && strings.Trim(t.Name, "`\"") == "spec" }) {
-			continue
-		}
-		n++
-		v := ci.Common().Args[1]
-		live := false
+	specLive := func(v ssa.Value) bool {
 		for x := range BackwardSlice(v) {
 			if lk, ok := x.(*ssa.Lookup); ok {
 				if k, isC := lk.Index.(*ssa.Const); isC && k.Value != nil && k.Value.Kind() == constant.String && constant.StringVal(k.Value) == "spec" {
-					live = true
+					return true
 				}
 			}
 		}
-		ok2 := fromData(v) && !live
-		c.Ob("R15.3b", "compareAndUpdateObject#spec", ci.Pos(), ok2, "spec written = spec returned by the script", ifs(!ok2, "the spec written depends on the live object's spec"))
+		return false
+	}
+	for _, pr := range withHelperInstrs(fn) {
+		// labels
+		if ci, isCall := pr.in.(ssa.CallInstruction); isCall && strings.HasSuffix(CalleeName(ci.Common()), "Unstructured.SetLabels") {
+			n++
+			vs := seenFrom(ci.Common().Args[1], pr)
+			ok := len(vs) > 0
+			for _, v := range vs {
+				if !(fromData(v) && !fromLive(v, "GetLabels")) {
+					ok = false
+				}
+			}
+			if pr.in != pr.site && fromLive(ci.Common().Args[1], "GetLabels") {
+				ok = false
+			}
+			c.Ob("R15.3b", "compareAndUpdateObject#labels", pr.site.Pos(), ok, "labels written = labels returned by the script", ifs(!ok, "the labels written depend on the live object's labels (or not on the script result): labels of an earlier step survive into later steps"))
+			continue
+		}
+		// spec: obj["spec"] = v, or SetNestedMap / SetNestedField(obj, v, "spec")
+		var specVal ssa.Value
+		switch x := pr.in.(type) {
+		case *ssa.MapUpdate:
+			if k, isC := x.Key.(*ssa.Const); isC && k.Value != nil && k.Value.Kind() == constant.String && constant.StringVal(k.Value) == "spec" {
+				specVal = x.Value
+			}
+		case ssa.CallInstruction:
+			cn := CalleeName(x.Common())
+			if (strings.HasSuffix(cn, "unstructured.SetNestedMap") || strings.HasSuffix(cn, "unstructured.SetNestedField")) && len(x.Common().Args) >= 3 &&
+				SliceHasDeep(x.Common().Args[2], func(t *Term) bool { return t.Op == "const" && strings.Trim(t.Name, "`\"") == "spec" }) {
+				specVal = x.Common().Args[1]
+			}
+		}
+		if specVal == nil {
+			continue
+		}
+		n++
+		vs := seenFrom(specVal, pr)
+		ok2 := len(vs) > 0
+		for _, v := range vs {
+			if !(fromData(v) && !specLive(v)) {
+				ok2 = false
+			}
+		}
+		if pr.in != pr.site && specLive(specVal) {
+			ok2 = false
+		}
+		c.Ob("R15.3b", "compareAndUpdateObject#spec", pr.site.Pos(), ok2, "spec written = spec returned by the script", ifs(!ok2, "the spec written depends on the live object's spec"))
 	}
 	if n < 2 {
 		c.Ob("R15.3b", "compareAndUpdateObject#writes", fn.Pos(), false, "spec and labels writes", fmt.Sprintf("found %d of 2", n))
